@@ -115,6 +115,13 @@ def run_repr(case):
     f = compare(_calc(what, dp, s, th, o), "points")
     if f:
         return Outcome(f, True, labels)
+    # (ii-b) the same grid with its axes stored in another order (an image transposed by the user, a hand-built
+    # DataArray): positions are given by the coordinate labels, not by the order of the dimensions
+    orders = [("z", "y", "x"), ("y", "x", "z"), ("x", "z", "y"), ("y", "z", "x")]
+    dt = d.transpose(*orders[case["seed"] % len(orders)])
+    f = compare(_calc(what, dt, s, th, o), "transposed_grid")
+    if f:
+        return Outcome(f, True, labels)
     # (iii) crops: raw isel and subimage
     x0 = int(case["crop"][0] * (nx - 1)); x1 = x0 + 1 + int(case["crop"][1] * (nx - 1 - x0))
     y0 = int(case["crop"][2] * (ny - 1)); y1 = y0 + 1 + int(case["crop"][3] * (ny - 1 - y0))
